@@ -330,6 +330,24 @@ def oracle(case, ctx):
             got = [[int(v) for v in first[first["case_id"] == inst[i]]["reading_id"]] for i in range(n)]
             if got != lab:
                 discs.append(D("time_labels_differ:Ns->L", "reading ids %s expected %s" % (got[:2], lab[:2])))
+            else:
+                # ... and the long table read back: instances in the order of their identifiers
+                # (as on the generic paths), each with its own cells and its own time labels,
+                # wherever its time labels lie relative to those of the other instances
+                back = sut(dp.from_long_to_nested, lg)
+                if isinstance(back, Raised) or not isinstance(back, pd.DataFrame):
+                    discs.append(D("conversion_raised:Ns->L->Ns", "per-instance time labels %s: %r" % (lab[:2], back)))
+                else:
+                    iorder = sorted(range(n), key=lambda i: inst[i])
+                    vorder = sorted(range(c), key=lambda j: names[j])
+                    d = sut(dec_nested, back)
+                    if isinstance(d, Raised) or d[0].shape != A[iorder][:, vorder].shape or not np.array_equal(d[0], A[iorder][:, vorder]):
+                        discs.append(D("values_differ:Ns->L->Ns", "per-instance time labels %s (instances %s): got %s expected %s" % (
+                            lab[:3], inst[:3], repr(d if isinstance(d, Raised) else d[0].tolist()[:2])[:200], A[iorder][:, vorder].tolist()[:2])))
+                    else:
+                        gl = [[int(v) for v in back.iloc[q, 0].index] for q in range(n)]
+                        if gl != [lab[i] for i in iorder]:
+                            discs.append(D("time_labels_differ:Ns->L->Ns", "cell time labels %s expected %s" % (gl[:2], [lab[i] for i in iorder][:2])))
     # check_X coercions agree with the conversions
     r = sut(check_X, starts["Ns"], coerce_to_numpy=True)
     if isinstance(r, Raised) or not (isinstance(r, np.ndarray) and np.array_equal(r, A)):
